@@ -153,3 +153,35 @@ def build(repo):
     u.rewrites = ["R7/R8: the two functions verbatim as methods of a recording shim; the two table statements wrapped as tables(op, negate, switch)", "format! shadowed (A-local-label)"]
     u.dropped = ["everything else of generate_condition_ex / generate_condition (operand evaluation, CMP emission, flags belief)"]
     return u
+
+
+def lift(harness, vals):
+    """Counterexample -> a C program exercising the comparison on the real compiler; the emitted code is then run on the 6502
+    interpreter (vf/sim6502.py) from the counterexample's operand values and compared with C semantics."""
+    cop = {"eq": "==", "neq": "!=", "lt": "<", "lte": "<=", "gt": ">", "gte": ">="}
+    m = re.match(r"branch_(cmp|alt)_(\w+?)_(u|s)(?:_(?:noovf|ovf))?$", harness)
+    if not m:
+        return None
+    try:
+        ints = [int(v) for v in vals if re.match(r"^\s*-?\d+\s*$", v)]
+    except Exception:
+        return None
+    kind, op, sg = m.group(1), m.group(2), m.group(3)
+    ty = "signed char" if sg == "s" else "unsigned char"
+    def sv(v):
+        return v - 256 if (sg == "s" and v > 127) else v
+    if kind == "cmp":
+        if len(ints) < 2:
+            return None
+        a, b = ints[0] & 0xff, ints[1] & 0xff
+        src = "%s a, b; char z;\nvoid main() { z = 0; if (a %s b) z = 1; }\n" % (ty, cop[op])
+        want = int(eval("%d %s %d" % (sv(a), cop[op], sv(b))))
+        return {"source": src, "args": ["-O0"], "expect": {"panic": False}, "simulate": {"init": {"a": a, "b": b}, "expect": {"z": want}},
+                "note": "a = %d, b = %d (%s): C gives z = %d" % (sv(a), sv(b), ty, want)}
+    if not ints:
+        return None
+    a = ints[0] & 0xff
+    src = "%s a; char z;\nvoid main() { z = 0; a = a + 1; if (a %s 0) z = 1; }\n" % (ty, cop[op])
+    want = int(eval("%d %s 0" % (sv(a), cop[op])))
+    return {"source": src, "args": ["-O0"], "expect": {"panic": False}, "simulate": {"init": {"a": (a - 1) & 0xff}, "expect": {"z": want}},
+            "note": "a becomes %d (%s) right before the test: C gives z = %d" % (sv(a), ty, want)}
